@@ -14,16 +14,18 @@ What is related, and how
   The theorems are about UNOPTIMISED code (C09 is the bridge over `Chunk::optimize`).
 * Scopes: the evaluator's `Scope` and the VM state's `scope` field are the same type
   (Model/Scope.lean).  The correspondence `ScopeRel` (= `ScopeSim`, Lemmas/RefineScope.lean) is
-  equality of `set` variables, includer, context and global context, and equality of the loop
-  stack UP TO the `end_ip` each loop recorded (the VM records the operand of `Iterate`, the
-  evaluator a constant; both are zero before the first `Iterate` and non-zero after).  `StRel`
-  adds output and capture stack for statements.
+  equality of `set` variables, context and global context, equality of the loop stack UP TO the
+  `end_ip` each loop recorded (the VM records the operand of `Iterate`, the evaluator a constant;
+  both are zero before the first `Iterate` and non-zero after), and the same relation between the
+  includer scopes.  `StRel` adds output and capture stack for statements.
 * Values: the stack relation is "same values, any span ranges": the theorem says the VM ends in
   `st.push v rg` for SOME range `rg` (of which it only promises `SpanOk`: both ends carry a span).
 * Errors: classes, `errMatch` (Lemmas/RefineInstr.lean); the evaluator's `fuel` and `unsupported`
   outcomes are not errors of the engine and are excluded (`reportable`).
 * Fuel: `runLoop (n + k) … = runLoop k …`: `n` steps are used; on the loop-free core (`lf = true`)
-  `n ≤ |code|`.
+  `n ≤ |code|`.  Expressions and statements other than `include` never call the nested
+  interpreter, so the equation holds for EVERY nested interpreter `rec`; with `include` it holds
+  for the real one, `Vm.interp`, with any step fuel `≥ N` and nesting fuel `≥ D` (`RunI.adequate`).
 * Environment: both models leave float arithmetic and float printing open; they must be given
   the same ones (`EnvRel`); the VM's tables of built-in filters / tests / functions must return
   what the evaluator's fixed table returns (`BuiltinsRel`; `venvOf`: it is satisfiable).  An error
@@ -382,95 +384,135 @@ end
 evaluator ends normally in `est'`, the VM ends at the end of the code in `withSc st est' sc'`:
 value stack and block bookkeeping untouched; output and capture stack are the evaluator's (so the
 text appended is the evaluator's), and the scope `sc'` corresponds to the evaluator's (so the
-variables assigned are the evaluator's). -/
-def CompileNodesCorrect (P : Node → Prop) (bounded : Bool) : Prop :=
+variables assigned are the evaluator's).  The nested interpreter is the real one, `Vm.interp`,
+with any step fuel `≥ N` and any nesting fuel `≥ D` (`N`, `D` depend on the run only: the
+includes it goes through). -/
+def CompileNodesCorrect (lf : Bool) (Inc : String → Prop) (P : Node → Prop) : Prop :=
   ∀ (venv : Vm.Env) (eenv : Tera.Env) (vm : VmCtx)
     (name : String) (pre post vcode : List VEntry) (loop : Option Nat) (ns : List Node),
-    (∀ n ∈ ns, P n) → EnvRel venv eenv → BuiltinsRel venv eenv →
+    (∀ n ∈ ns, P n) → EnvRel venv eenv → BuiltinsRel venv eenv → TemplatesRel venv eenv lf Inc →
     embed (nodesCode pre.length loop ns) = some vcode →
-    reportTargetOk venv vm ⟨name, pre ++ vcode ++ post⟩ = true →
+    reportTargetOk venv vm ⟨name, pre ++ vcode ++ post⟩ = true → vm.autoescapeOverride = none →
     ∀ (st : State) (est : Tera.St), StRel st est → ∀ (fuel : Nat),
       (∀ est', execNodes fuel eenv vm.autoescape est ns = .ok (est', .normal) →
-        ∃ n sc', (bounded = true → n ≤ vcode.length) ∧ ScopeSim est'.scope sc' ∧
-          ∀ rec k, runLoop rec venv vm ⟨name, pre ++ vcode ++ post⟩ (n + k) pre.length st
-            = runLoop rec venv vm ⟨name, pre ++ vcode ++ post⟩ k (pre.length + vcode.length)
-                (withSc st est' sc'))
+        ∃ n sc' N D, ScopeSim est'.scope sc' ∧
+          ∀ steps depth, N ≤ steps → D ≤ depth → ∀ k,
+            runLoop (interp venv steps depth) venv vm ⟨name, pre ++ vcode ++ post⟩ (n + k) pre.length st
+              = runLoop (interp venv steps depth) venv vm ⟨name, pre ++ vcode ++ post⟩ k
+                  (pre.length + vcode.length) (withSc st est' sc'))
       ∧ (∀ err, execNodes fuel eenv vm.autoescape est ns = .error err → reportable err = true →
-        ∃ n re, (bounded = true → n ≤ vcode.length) ∧ errMatch err re = true ∧
-          ∀ rec k, runLoop rec venv vm ⟨name, pre ++ vcode ++ post⟩ (n + k) pre.length st = .err re)
+        ∃ n re N D, errMatch err re = true ∧
+          ∀ steps depth, N ≤ steps → D ≤ depth → ∀ k,
+            runLoop (interp venv steps depth) venv vm ⟨name, pre ++ vcode ++ post⟩ (n + k) pre.length st
+              = .err re)
 
 /-- Full strength: every statement list the parser can produce outside a loop body
-(`nodesScoped false`: no stray `break` / `continue`, no binary `Is` / `Pipe`).  NOT proved in
-full: `compile_nodes_correct_core` proves it for `InCoreNode` (no include, block, component
-call). -/
+(`nodesScoped false`: no stray `break` / `continue`, no binary `Is` / `Pipe`), every template
+may be included.  NOT proved in full: `compile_nodes_correct_core` proves it for `InCoreNode` (no
+block, no component call). -/
 def compile_nodes_correct_full : Prop :=
-  ∀ (ns : List Node), nodesScoped false ns = true → CompileNodesCorrect (fun n => n ∈ ns) false
+  ∀ (ns : List Node), nodesScoped false ns = true →
+    CompileNodesCorrect false (fun _ => True) (fun n => n ∈ ns)
 
-/-- `compile_node_correct` on the statement core `InCoreNode lf false` (outside a loop body):
+/-- `compile_node_correct` on the statement core `InCoreNode lf Inc false` (outside a loop body):
 template text, `{{ e }}`, `{% set %}` / `{% set_global %}`, `{% if %}` / `{% elif %}` /
 `{% else %}`, filter sections, set blocks with filter chains, and — with `lf = false` — `for`
-loops (key / value, `else`, nested) with `break` / `continue` in their bodies, over `InCore lf`
-expressions.  Not covered: `include`, `block`, component calls. -/
-theorem compile_nodes_correct_core (lf : Bool) : CompileNodesCorrect (InCoreNode lf false) lf := by
-  intro venv eenv vm name pre post vcode loop ns hcore hE hB hemb ht st est hrel fuel
+loops (key / value, `else`, nested) with `break` / `continue` in their bodies and `include` of the
+templates `Inc` (which `TemplatesRel` relates), over `InCore lf` expressions.  Not covered: `block`,
+component calls. -/
+theorem compile_nodes_correct_core (lf : Bool) (Inc : String → Prop) :
+    CompileNodesCorrect lf Inc (InCoreNode lf Inc false) := by
+  intro venv eenv vm name pre post vcode loop ns hcore hE hB hT hemb ht hov st est hrel fuel
   have hlen := embed_length hemb
   have hcode := codeAt_of_embed (name := name) (pre := pre) (post := post) hemb
-  have hsim := nodes_sim hE hB ht fuel false ns hcore pre.length loop st est hrel
+  have hsim := nodes_sim hE hB hT ht hov fuel false ns hcore pre.length loop st est hrel
     (fun h => by cases h) hcode
   constructor
   · intro est' hv
     rw [hv] at hsim
-    obtain ⟨tr, sc', hsc', _, hrun, _, hl⟩ := hsim
-    refine ⟨tr.length, sc', fun h => by have := hl h; omega, hsc', fun rec k => ?_⟩
+    obtain ⟨tr, sc', hsc', _, hrun, _, _⟩ := hsim
+    have hrun' : RunI venv vm ⟨name, pre ++ vcode ++ post⟩ pre.length st tr
+        (pre.length + (nodesCode pre.length loop ns).length) (withSc st est' sc') := hrun
+    obtain ⟨N, D, hND⟩ := hrun'.adequate
+    refine ⟨tr.length, sc', N, D, hsc', fun steps depth hN hD k => ?_⟩
     rw [hlen]
-    exact Run.runLoop hrun rec k
+    exact hND steps depth hN hD k
   · intro err hv hrep
     rw [hv] at hsim
-    obtain ⟨tr, re, hf, hm, _, hl⟩ := hsim hrep
-    exact ⟨tr.length, re, fun h => by have := hl h; omega, hm, fun rec k => hf.runLoop rec k⟩
+    obtain ⟨tr, re, hf, hm, _, _⟩ := hsim hrep
+    obtain ⟨N, D, hND⟩ := hf.adequate
+    exact ⟨tr.length, re, N, D, hm, hND⟩
 
 /-- The same with the code anywhere in any chunk, inside or outside a loop body, with the trace
-and with the `break` / `continue` signals (`NodeOutcome`: where the run stops for each signal). -/
+and with the `break` / `continue` signals (`NodeOutcome`: where the run stops for each signal; on
+the loop-free core at most `|code|` instructions are executed).  `RunI` / `FailsI`
+(Lemmas/RefineRunI.lean) are runs in which a turn at an `Include` is a complete run of the
+included chunk. -/
 theorem compile_nodes_correct_at {venv : Vm.Env}
-    {eenv : Tera.Env} {vm : VmCtx} {c : Chunk} {lf : Bool} (hE : EnvRel venv eenv)
-    (hB : BuiltinsRel venv eenv) (ht : reportTargetOk venv vm c = true) (fuel : Nat)
-    (inLoop : Bool) (ns : List Node) (hns : ∀ n ∈ ns, InCoreNode lf inLoop n) (base : Nat)
+    {eenv : Tera.Env} {vm : VmCtx} {c : Chunk} {lf : Bool} {Inc : String → Prop}
+    (hE : EnvRel venv eenv) (hB : BuiltinsRel venv eenv) (hT : TemplatesRel venv eenv lf Inc)
+    (ht : reportTargetOk venv vm c = true) (hov : vm.autoescapeOverride = none) (fuel : Nat)
+    (inLoop : Bool) (ns : List Node) (hns : ∀ n ∈ ns, InCoreNode lf Inc inLoop n) (base : Nat)
     (loop : Option Nat) (st : State) (est : Tera.St) (hst : StRel st est)
     (hctx : LoopCtx inLoop loop st) (hcode : CodeAt c base (nodesCode base loop ns)) :
     NodeOutcome venv vm c lf loop (execNodes fuel eenv vm.autoescape est ns) base
       (nodesCode base loop ns).length st :=
-  nodes_sim hE hB ht fuel inLoop ns hns base loop st est hst hctx hcode
+  nodes_sim hE hB hT ht hov fuel inLoop ns hns base loop st est hst hctx hcode
 
 /-- One statement. -/
 theorem compile_node_correct_at {venv : Vm.Env}
-    {eenv : Tera.Env} {vm : VmCtx} {c : Chunk} {lf : Bool} (hE : EnvRel venv eenv)
-    (hB : BuiltinsRel venv eenv) (ht : reportTargetOk venv vm c = true) (fuel : Nat)
-    (inLoop : Bool) (n : Node) (hn : InCoreNode lf inLoop n) (base : Nat)
+    {eenv : Tera.Env} {vm : VmCtx} {c : Chunk} {lf : Bool} {Inc : String → Prop}
+    (hE : EnvRel venv eenv) (hB : BuiltinsRel venv eenv) (hT : TemplatesRel venv eenv lf Inc)
+    (ht : reportTargetOk venv vm c = true) (hov : vm.autoescapeOverride = none) (fuel : Nat)
+    (inLoop : Bool) (n : Node) (hn : InCoreNode lf Inc inLoop n) (base : Nat)
     (loop : Option Nat) (st : State) (est : Tera.St) (hst : StRel st est)
     (hctx : LoopCtx inLoop loop st) (hcode : CodeAt c base (nodeCode base loop n)) :
     NodeOutcome venv vm c lf loop (execNode fuel eenv vm.autoescape est n) base
       (nodeCode base loop n).length st :=
-  node_sim hE hB ht fuel inLoop n hn base loop st est hst hctx hcode
+  node_sim hE hB hT ht hov fuel inLoop n hn base loop st est hst hctx hcode
 
+/-- no template may be included: `TemplatesRel` asks nothing -/
+theorem templatesRel_none (venv : Vm.Env) (eenv : Tera.Env) (lf : Bool) :
+    TemplatesRel venv eenv lf (fun _ => False) := ⟨fun _ h => h.elim⟩
+
+/-- `TemplatesRel` is satisfiable, for every body of the core (which may include itself): the two
+tables holding that one template under the name `inc` -/
+theorem templatesRel_single (lf ae : Bool) (inc : String) (ns : List Node) (vcode : List VEntry)
+    (hemb : embed (nodesCode 0 none ns) = some vcode)
+    (hcore : ∀ n ∈ ns, InCoreNode lf (· = inc) false n) (vbase : Vm.Env) (ebase : Tera.Env) :
+    TemplatesRel
+      { vbase with templates := [(inc, { name := inc, chunk := ⟨inc, vcode⟩, autoescape := ae,
+                                         parents := [], blockLineage := [], components := [] })] }
+      { ebase with templates := [(inc, ⟨ns, ae⟩)] } lf (· = inc) := by
+  refine ⟨fun name hname => ?_⟩
+  subst hname
+  have he : ({ ebase with templates := [(name, ⟨ns, ae⟩)] } : Tera.Env).template name = some ⟨ns, ae⟩ := by
+    simp [Tera.Env.template, List.find?]
+  rw [he]
+  refine ⟨{ name := name, chunk := ⟨name, vcode⟩, autoescape := ae, parents := [], blockLineage := [],
+            components := [] }, vcode, ?_, rfl, hemb, rfl, hcore⟩
+  simp [Vm.Env.template, assoc]
 /-- End to end for a template of the core: when the VM's template table holds, under `name`, a
 template without parents whose chunk is the compiled body (`nodesCode 0 none nodes`, embedded),
-and the evaluator's table holds the same body with the same autoescape flag, then whatever
-`Tera.render` (Model/Eval.lean) gives, `Vm.render` (Model/Vm.lean) gives: the same text, or an
-error of the same class — with any nesting depth `≥ 1` and any step fuel `≥ n`, where `n` does
-not depend on the fuel given and is at most `|code|` on the loop-free core. -/
+and the evaluator's table holds the same body with the same autoescape flag, and the templates
+that may be included are related the same way (`TemplatesRel`), then whatever `Tera.render`
+(Model/Eval.lean) gives, `Vm.render` (Model/Vm.lean) gives: the same text, or an error of the
+same class — with any step fuel `≥ N` and nesting fuel `> D`, which do not depend on the fuel
+given. -/
 theorem render_correct_core (venv : Vm.Env) (eenv : Tera.Env) (hE : EnvRel venv eenv)
-    (hB : BuiltinsRel venv eenv)
+    (hB : BuiltinsRel venv eenv) (lf : Bool) (Inc : String → Prop)
+    (hT : TemplatesRel venv eenv lf Inc)
     (name : String) (tpl : TemplateInfo) (nodes : List Node) (vcode : List VEntry)
     (hv : venv.template name = some tpl) (hpar : tpl.parents = [])
     (hchunk : tpl.chunk = ⟨tpl.name, vcode⟩)
     (hemb : embed (nodesCode 0 none nodes) = some vcode)
-    (he : eenv.template name = some ⟨nodes, tpl.autoescape⟩) (lf : Bool)
-    (hcore : ∀ n ∈ nodes, InCoreNode lf false n) (ctx g : Ctx) (fuel : Nat) :
+    (he : eenv.template name = some ⟨nodes, tpl.autoescape⟩)
+    (hcore : ∀ n ∈ nodes, InCoreNode lf Inc false n) (ctx g : Ctx) (fuel : Nat) :
     (∀ text, Tera.render fuel eenv name ctx g = .ok text →
-      ∃ n, (lf = true → n ≤ vcode.length) ∧ ∀ depth steps, n ≤ steps →
+      ∃ N D, ∀ steps depth, N ≤ steps → D ≤ depth →
         Vm.render ⟨depth + 1, steps⟩ venv name none ctx g = .ok text)
     ∧ (∀ err, Tera.render fuel eenv name ctx g = .error err → reportable err = true →
-      ∃ n re, (lf = true → n ≤ vcode.length) ∧ errMatch err re = true ∧ ∀ depth steps, n ≤ steps →
+      ∃ re N D, errMatch err re = true ∧ ∀ steps depth, N ≤ steps → D ≤ depth →
         Vm.render ⟨depth + 1, steps⟩ venv name none ctx g = .err re) := by
   have hcode := codeAt_of_embed (name := tpl.name) (pre := []) (post := []) hemb
   simp only [List.nil_append, List.append_nil, List.length_nil] at hcode
@@ -480,7 +522,7 @@ theorem render_correct_core (venv : Vm.Env) (eenv : Tera.Env) (hE : EnvRel venv 
   have hsim : NodeOutcome venv vm ⟨tpl.name, vcode⟩ lf none
       (execNodes fuel eenv tpl.autoescape { scope := Scope.root ctx g, out := [], captures := [] } nodes)
       0 (nodesCode 0 none nodes).length (entryState none ctx g) :=
-    nodes_sim (vm := vm) hE hB ht fuel false nodes hcore 0 none
+    nodes_sim (vm := vm) hE hB hT ht rfl fuel false nodes hcore 0 none
       (entryState none ctx g) { scope := Scope.root ctx g, out := [], captures := [] }
       ⟨ScopeSim.refl _, rfl, rfl⟩ (fun h => by cases h) hcode
   have hrender : ∀ depth steps, Vm.render ⟨depth + 1, steps⟩ venv name none ctx g
@@ -490,11 +532,88 @@ theorem render_correct_core (venv : Vm.Env) (eenv : Tera.Env) (hE : EnvRel venv 
     simp only [Vm.render, hv, lineageMissing, Bool.false_eq_true, if_false, entryChunk, hpar,
       List.head?_nil, hchunk, run, interp]
     rfl
-  have hdone : ∀ (rec : VmCtx → Chunk → State → RunRes) (k : Nat) (st' : State),
-      runLoop rec venv vm ⟨tpl.name, vcode⟩ k (0 + vcode.length) st' = .done st' := by
-    intro rec k st'
-    have hnone : (⟨tpl.name, vcode⟩ : Chunk).code[0 + vcode.length]? = none := by simp
-    cases k <;> simp only [runLoop, hnone]
+  constructor
+  · intro text htext
+    simp only [Tera.render, he] at htext
+    cases hr : execNodes fuel eenv tpl.autoescape
+        { scope := Scope.root ctx g, out := [], captures := [] } nodes with
+    | error err => simp [hr] at htext
+    | ok p =>
+      obtain ⟨est', sig⟩ := p
+      cases sig with
+      | normal =>
+        simp only [hr, Except.ok.injEq] at htext
+        rw [hr] at hsim
+        obtain ⟨tr, sc', _, _, hrun, _, _⟩ := hsim
+        have hrun' : RunI venv vm ⟨tpl.name, vcode⟩ 0 (entryState none ctx g) tr
+            (0 + (nodesCode 0 none nodes).length) (withSc (entryState none ctx g) est' sc') := hrun
+        obtain ⟨N, D, hND⟩ := hrun'.adequate
+        refine ⟨max N tr.length, D, fun steps depth hN hD => ?_⟩
+        rw [hrender]
+        have := hND steps depth (by omega) hD (steps - tr.length)
+        have hdone : ∀ (rec : VmCtx → Chunk → State → RunRes) (k : Nat) (st' : State),
+            runLoop rec venv vm ⟨tpl.name, vcode⟩ k (0 + vcode.length) st' = .done st' :=
+          fun rec k st' => runLoop_off_end rec venv vm _ k _ st' (by simp)
+        rw [show tr.length + (steps - tr.length) = steps by omega, ← hlen, hdone] at this
+        rw [this]
+        simp only [outcomeOf, Option.isSome_none, Bool.false_eq_true, if_false, withSc, htext]
+      | brk => simp [hr] at htext
+      | cont => simp [hr] at htext
+  · intro err herr hrep
+    simp only [Tera.render, he] at herr
+    cases hr : execNodes fuel eenv tpl.autoescape
+        { scope := Scope.root ctx g, out := [], captures := [] } nodes with
+    | ok p =>
+      obtain ⟨est', sig⟩ := p
+      cases sig <;> simp only [hr] at herr
+      · cases herr
+      · cases herr; simp [reportable] at hrep
+      · cases herr; simp [reportable] at hrep
+    | error err' =>
+      simp only [hr, Except.error.injEq] at herr
+      subst herr
+      rw [hr] at hsim
+      obtain ⟨tr, re, hf, hm, _, _⟩ := hsim hrep
+      obtain ⟨N, D, hND⟩ := hf.adequate
+      refine ⟨re, max N tr.length, D, hm, fun steps depth hN hD => ?_⟩
+      rw [hrender]
+      have := hND steps depth (by omega) hD (steps - tr.length)
+      rw [show tr.length + (steps - tr.length) = steps by omega] at this
+      rw [this]
+      rfl
+
+/-- … on the loop-free core, for a chunk without `Include`: any nesting depth `≥ 1` and any step
+fuel `≥ |code|` will do. -/
+theorem render_correct_core_bounded (venv : Vm.Env) (eenv : Tera.Env) (hE : EnvRel venv eenv)
+    (hB : BuiltinsRel venv eenv)
+    (name : String) (tpl : TemplateInfo) (nodes : List Node) (vcode : List VEntry)
+    (hv : venv.template name = some tpl) (hpar : tpl.parents = [])
+    (hchunk : tpl.chunk = ⟨tpl.name, vcode⟩)
+    (hemb : embed (nodesCode 0 none nodes) = some vcode) (hno : noInclude vcode = true)
+    (he : eenv.template name = some ⟨nodes, tpl.autoescape⟩)
+    (hcore : ∀ n ∈ nodes, InCoreNode true (fun _ => False) false n) (ctx g : Ctx)
+    (fuel depth steps : Nat) (hsteps : vcode.length ≤ steps) :
+    (∀ text, Tera.render fuel eenv name ctx g = .ok text →
+      Vm.render ⟨depth + 1, steps⟩ venv name none ctx g = .ok text)
+    ∧ (∀ err, Tera.render fuel eenv name ctx g = .error err → reportable err = true →
+      ∃ re, errMatch err re = true ∧ Vm.render ⟨depth + 1, steps⟩ venv name none ctx g = .err re) := by
+  have hcode := codeAt_of_embed (name := tpl.name) (pre := []) (post := []) hemb
+  simp only [List.nil_append, List.append_nil, List.length_nil] at hcode
+  have hlen := embed_length hemb
+  let vm : VmCtx := { template := tpl, autoescapeOverride := none, depth := 0 }
+  have ht : reportTargetOk venv vm ⟨tpl.name, vcode⟩ = true := by simp [reportTargetOk, vm]
+  have hsim : NodeOutcome venv vm ⟨tpl.name, vcode⟩ true none
+      (execNodes fuel eenv tpl.autoescape { scope := Scope.root ctx g, out := [], captures := [] } nodes)
+      0 (nodesCode 0 none nodes).length (entryState none ctx g) :=
+    nodes_sim (vm := vm) hE hB (templatesRel_none venv eenv true) ht rfl fuel false nodes hcore 0 none
+      (entryState none ctx g) { scope := Scope.root ctx g, out := [], captures := [] }
+      ⟨ScopeSim.refl _, rfl, rfl⟩ (fun h => by cases h) hcode
+  have hrender : Vm.render ⟨depth + 1, steps⟩ venv name none ctx g
+      = outcomeOf none (runLoop (interp venv steps depth) venv vm ⟨tpl.name, vcode⟩ steps 0
+          (entryState none ctx g)) := by
+    simp only [Vm.render, hv, lineageMissing, Bool.false_eq_true, if_false, entryChunk, hpar,
+      List.head?_nil, hchunk, run, interp]
+    rfl
   constructor
   · intro text htext
     simp only [Tera.render, he] at htext
@@ -508,11 +627,16 @@ theorem render_correct_core (venv : Vm.Env) (eenv : Tera.Env) (hE : EnvRel venv 
         simp only [hr, Except.ok.injEq] at htext
         rw [hr] at hsim
         obtain ⟨tr, sc', _, _, hrun, _, hl⟩ := hsim
-        have hrun' : Run venv vm ⟨tpl.name, vcode⟩ 0 (entryState none ctx g) tr
+        have hl := hl rfl
+        have hrun' : RunI venv vm ⟨tpl.name, vcode⟩ 0 (entryState none ctx g) tr
             (0 + (nodesCode 0 none nodes).length) (withSc (entryState none ctx g) est' sc') := hrun
-        refine ⟨tr.length, fun h => by have := hl h; omega, fun depth steps hsteps => ?_⟩
+        have hrun'' := hrun'.toRun hno
         rw [hrender]
-        have := hrun'.runLoop (interp venv steps depth) (steps - tr.length)
+        have := hrun''.runLoop (interp venv steps depth) (steps - tr.length)
+        rw [← hlen] at hl
+        have hdone : ∀ (rec : VmCtx → Chunk → State → RunRes) (k : Nat) (st' : State),
+            runLoop rec venv vm ⟨tpl.name, vcode⟩ k (0 + vcode.length) st' = .done st' :=
+          fun rec k st' => runLoop_off_end rec venv vm _ k _ st' (by simp)
         rw [show tr.length + (steps - tr.length) = steps by omega, ← hlen, hdone] at this
         rw [this]
         simp only [outcomeOf, Option.isSome_none, Bool.false_eq_true, if_false, withSc, htext]
@@ -533,9 +657,12 @@ theorem render_correct_core (venv : Vm.Env) (eenv : Tera.Env) (hE : EnvRel venv 
       subst herr
       rw [hr] at hsim
       obtain ⟨tr, re, hf, hm, _, hl⟩ := hsim hrep
-      refine ⟨tr.length, re, fun h => by have := hl h; omega, hm, fun depth steps hsteps => ?_⟩
+      have hl := hl rfl
+      have hf' := hf.toFails hno
+      refine ⟨re, hm, ?_⟩
       rw [hrender]
-      have := hf.runLoop (interp venv steps depth) (steps - tr.length)
+      have := hf'.runLoop (interp venv steps depth) (steps - tr.length)
+      rw [← hlen] at hl
       rw [show tr.length + (steps - tr.length) = steps by omega] at this
       rw [this]
       rfl
@@ -545,17 +672,18 @@ theorem render_correct_core (venv : Vm.Env) (eenv : Tera.Env) (hE : EnvRel venv 
 into the main chunk, so a VM template whose chunk is that main chunk (embedded) renders what the
 evaluator renders from the AST `t.nodes`. -/
 theorem render_correct_compiled (venv : Vm.Env) (eenv : Tera.Env) (hE : EnvRel venv eenv)
-    (hB : BuiltinsRel venv eenv) (name : String) (tpl : TemplateInfo) (t : Template)
+    (hB : BuiltinsRel venv eenv) (lf : Bool) (Inc : String → Prop)
+    (hT : TemplatesRel venv eenv lf Inc) (name : String) (tpl : TemplateInfo) (t : Template)
     (comp : Compiled) (vcode : List VEntry) (hcomp : compileTemplate t = .ok comp)
     (hv : venv.template name = some tpl) (hpar : tpl.parents = [])
     (hchunk : tpl.chunk = ⟨tpl.name, vcode⟩) (hemb : embed comp.main = some vcode)
-    (he : eenv.template name = some ⟨t.nodes, tpl.autoescape⟩) (lf : Bool)
-    (hcore : ∀ n ∈ t.nodes, InCoreNode lf false n) (ctx g : Ctx) (fuel : Nat) :
+    (he : eenv.template name = some ⟨t.nodes, tpl.autoescape⟩)
+    (hcore : ∀ n ∈ t.nodes, InCoreNode lf Inc false n) (ctx g : Ctx) (fuel : Nat) :
     (∀ text, Tera.render fuel eenv name ctx g = .ok text →
-      ∃ n, (lf = true → n ≤ vcode.length) ∧ ∀ depth steps, n ≤ steps →
+      ∃ N D, ∀ steps depth, N ≤ steps → D ≤ depth →
         Vm.render ⟨depth + 1, steps⟩ venv name none ctx g = .ok text)
     ∧ (∀ err, Tera.render fuel eenv name ctx g = .error err → reportable err = true →
-      ∃ n re, (lf = true → n ≤ vcode.length) ∧ errMatch err re = true ∧ ∀ depth steps, n ≤ steps →
+      ∃ re N D, errMatch err re = true ∧ ∀ steps depth, N ≤ steps → D ≤ depth →
         Vm.render ⟨depth + 1, steps⟩ venv name none ctx g = .err re) := by
   have hmain : comp.main = nodesCode 0 none t.nodes := by
     unfold compileTemplate at hcomp
@@ -564,7 +692,8 @@ theorem render_correct_compiled (venv : Vm.Env) (eenv : Tera.Env) (hE : EnvRel v
     · simp only [Except.ok.injEq] at hcomp
       rw [← hcomp]
   rw [hmain] at hemb
-  exact render_correct_core venv eenv hE hB name tpl t.nodes vcode hv hpar hchunk hemb he lf hcore ctx g fuel
+  exact render_correct_core venv eenv hE hB lf Inc hT name tpl t.nodes vcode hv hpar hchunk hemb he
+    hcore ctx g fuel
 
 /-! ## The domain as a check
 
@@ -579,35 +708,33 @@ theorem compile_expr_correct_checked : CompileExprCorrect (fun e => exprInCore e
   fun venv eenv vm name pre post vcode loop e hP =>
     compile_expr_correct_core false venv eenv vm name pre post vcode loop e (exprInCore_sound e hP)
 
-/-- `compile_node_correct` for every statement list that passes the check -/
-theorem compile_nodes_correct_checked :
-    CompileNodesCorrect (fun n => nodeInCore false n = true) false :=
+/-- `compile_node_correct` for every statement list that passes the check (`incs`: the names that
+may be included) -/
+theorem compile_nodes_correct_checked (incs : List String) :
+    CompileNodesCorrect false (· ∈ incs) (fun n => nodeInCore incs false n = true) :=
   fun venv eenv vm name pre post vcode loop ns hP =>
-    compile_nodes_correct_core false venv eenv vm name pre post vcode loop ns
-      (fun n hn => nodeInCore_sound false n (hP n hn))
+    compile_nodes_correct_core false (· ∈ incs) venv eenv vm name pre post vcode loop ns
+      (fun n hn => nodeInCore_sound incs false n (hP n hn))
 
 /-- `Tera.render` = `Vm.render` on the model compiler's output for every template whose body
-passes the check -/
+passes the check, the included templates being related by `TemplatesRel` -/
 theorem render_correct_checked (venv : Vm.Env) (eenv : Tera.Env) (hE : EnvRel venv eenv)
-    (hB : BuiltinsRel venv eenv) (name : String) (tpl : TemplateInfo) (t : Template)
+    (hB : BuiltinsRel venv eenv) (incs : List String)
+    (hT : TemplatesRel venv eenv false (· ∈ incs)) (name : String) (tpl : TemplateInfo)
+    (t : Template)
     (comp : Compiled) (vcode : List VEntry) (hcomp : compileTemplate t = .ok comp)
     (hv : venv.template name = some tpl) (hpar : tpl.parents = [])
     (hchunk : tpl.chunk = ⟨tpl.name, vcode⟩) (hemb : embed comp.main = some vcode)
     (he : eenv.template name = some ⟨t.nodes, tpl.autoescape⟩)
-    (hcheck : nodesInCore false t.nodes = true) (ctx g : Ctx) (fuel : Nat) :
+    (hcheck : nodesInCore incs false t.nodes = true) (ctx g : Ctx) (fuel : Nat) :
     (∀ text, Tera.render fuel eenv name ctx g = .ok text →
-      ∃ n, ∀ depth steps, n ≤ steps →
+      ∃ N D, ∀ steps depth, N ≤ steps → D ≤ depth →
         Vm.render ⟨depth + 1, steps⟩ venv name none ctx g = .ok text)
     ∧ (∀ err, Tera.render fuel eenv name ctx g = .error err → reportable err = true →
-      ∃ n re, errMatch err re = true ∧ ∀ depth steps, n ≤ steps →
-        Vm.render ⟨depth + 1, steps⟩ venv name none ctx g = .err re) := by
-  have h := render_correct_compiled venv eenv hE hB name tpl t comp vcode hcomp hv hpar hchunk hemb he
-    false (nodesInCore_sound false t.nodes hcheck) ctx g fuel
-  refine ⟨fun text ht => ?_, fun err he hr => ?_⟩
-  · obtain ⟨n, _, hn⟩ := h.1 text ht
-    exact ⟨n, hn⟩
-  · obtain ⟨n, re, _, hm, hn⟩ := h.2 err he hr
-    exact ⟨n, re, hm, hn⟩
+      ∃ re N D, errMatch err re = true ∧ ∀ steps depth, N ≤ steps → D ≤ depth →
+        Vm.render ⟨depth + 1, steps⟩ venv name none ctx g = .err re) :=
+  render_correct_compiled venv eenv hE hB false (· ∈ incs) hT name tpl t comp vcode hcomp hv hpar
+    hchunk hemb he (nodesInCore_sound incs false t.nodes hcheck) ctx g fuel
 
 /-! ## Spot checks: concrete expressions through both models (kernel-evaluated)
 
@@ -837,7 +964,7 @@ def exBody : List Node :=
    .set "q" (.binary .Or (.var "a") (strLit "<d>")) false, .expression (.var "q")]
 where ex2body : Expr := .binary .And (.var "a") (.getAttr (.var "b") "c" false)
 
-example : ∀ n ∈ exBody, InCoreNode true false n := by
+example : ∀ n ∈ exBody, InCoreNode true (fun _ => False) false n := by
   intro n hn
   simp only [exBody, List.mem_cons, List.not_mem_nil, or_false] at hn
   rcases hn with rfl | rfl | rfl | rfl | rfl | rfl
@@ -887,7 +1014,7 @@ def exLoops : List Node :=
      [],
    .expression (.test (.var "s") "defined" [])]
 
-example : ∀ n ∈ exLoops, InCoreNode false false n := by
+example : ∀ n ∈ exLoops, InCoreNode false (fun _ => False) false n := by
   intro n hn
   simp only [exLoops, List.mem_cons, List.not_mem_nil, or_false] at hn
   rcases hn with rfl | rfl | rfl | rfl
@@ -954,7 +1081,7 @@ def exCaptures : List Node :=
    .blockSet "u" [] [.filterSection "length" [] [.content "xyz"]] true,
    .expression (.var "u")]
 
-example : ∀ n ∈ exCaptures, InCoreNode true false n := by
+example : ∀ n ∈ exCaptures, InCoreNode true (fun _ => False) false n := by
   intro n hn
   simp only [exCaptures, List.mem_cons, List.not_mem_nil, or_false] at hn
   rcases hn with rfl | rfl | rfl | rfl | rfl | rfl | rfl
@@ -997,6 +1124,43 @@ example : agreeT exCaptures true [] = true := by decide +kernel
 `x` a number so that `upper` still sees a string but the set block's `trim` sees text): -/
 example : agreeT exCaptures false [("x", .u64 5)] = true := by decide +kernel
 
+/-! ### `include`: several templates -/
+
+/-- both template tables from one list of ASTs (autoescape on) -/
+def agreeTs (tpls : List (String × List Node)) (main : String) (ctx : Ctx) : Bool :=
+  let venvTpls := tpls.filterMap fun (n, nodes) =>
+    (embed (nodesCode 0 none nodes)).map fun vcode =>
+      (n, ({ name := n, chunk := ⟨n, vcode⟩, autoescape := true, parents := [], blockLineage := [],
+             components := [] } : TemplateInfo))
+  match Tera.render 60 { exEenv with templates := tpls.map fun (n, nodes) => (n, ⟨nodes, true⟩) } main ctx [],
+      Vm.render ⟨4, 3000⟩ { exVenv with templates := venvTpls } main none ctx [] with
+  | .ok text, .ok text' => text == text' && !text.isEmpty
+  | .error err, .err re => errMatch err re
+  | _, _ => false
+
+/-- `main`: `{% set t = "T" %}{% for x in xs %}{% include "row" %}{% endfor %}{% include "foot" %}`
+`row`: `[{{ loop.index }}:{{ x }}{{ t }}{% set t = x %}{{ t }}]`   (reads the includer's loop and
+variables; its own `set` stays its own)
+`foot`: `{{ t }}{% include "missing" %}` -/
+def exIncl : List (String × List Node) :=
+  [("main", [.set "t" (strLit "T") false,
+             .forLoop none "x" (.var "xs") [.include "row"] [],
+             .include "foot"]),
+   ("row", [.content "[", .expression (.var "__tera_loop_index"), .content ":", .expression (.var "x"),
+            .expression (.var "t"), .set "t" (.var "x") false, .expression (.var "t"), .content "]"]),
+   ("foot", [.expression (.var "t")])]
+
+example : agreeTs exIncl "main" [("xs", .arr [.u64 7, .u64 8])] = true := by decide +kernel
+example : (match Tera.render 60 { exEenv with templates := exIncl.map fun (n, nodes) => (n, ⟨nodes, true⟩) }
+      "main" [("xs", .arr [.u64 7, .u64 8])] [] with
+    | .ok text => text == "[1:7T7][2:8T8]T".toList
+    | _ => false) = true := by decide +kernel
+/-- an error inside the included template (`x` is a map: `{{ x }}` prints, `xs` not iterable) -/
+example : agreeTs exIncl "main" [("xs", .u64 1)] = true := by decide +kernel
+/-- including a template that does not exist: `missingTemplate` / `templateNotFound` -/
+example : agreeTs (exIncl ++ [("m2", [.content "a", .include "nope"])]) "m2" [] = true := by decide +kernel
+example : nodesInCore ["row", "foot"] false (exIncl.head!.2) = true := by decide
+
 /-! ### from SOURCE TEXT
 
 `agreeSrc src ctx`: the lexer, whitespace-filter and parser models (Model/Pipeline.lean `front`)
@@ -1008,7 +1172,7 @@ def srcOf (s : String) : List Nat := s.toList.map fun c => c.toNat
 
 def agreeSrc (src : String) (ctx : Ctx) : Bool :=
   match Pipeline.front Generated.defaultDelims (srcOf src) with
-  | .ok t => nodesInCore false t.nodes && agreeT t.nodes true ctx true
+  | .ok t => nodesInCore [] false t.nodes && agreeT t.nodes true ctx true
   | _ => false
 
 def srcCtx : Ctx :=
@@ -1042,14 +1206,14 @@ example : agreeSrc "{{ xs | first + 'a' }}" srcCtx = true := by decide +kernel
 /-! ### the domain check on the examples above, and on what it must refuse -/
 example : exprInCore ex1 = true ∧ exprInCore ex2 = true ∧ exprInCore ex3 = true
     ∧ exprInCore exCompr = true := by decide
-example : nodesInCore false exBody = true ∧ nodesInCore false exLoops = true
-    ∧ nodesInCore false exCaptures = true := by decide
+example : nodesInCore [] false exBody = true ∧ nodesInCore [] false exLoops = true
+    ∧ nodesInCore [] false exCaptures = true := by decide
 example : exprInCore (.componentCall "c" [] [] true) = false := by decide
 example : exprInCore (.binary .Is (.var "a") (.var "b")) = false := by decide
 example : exprInCore (.functionCall "f" [("a", num 1), ("a", num 2)]) = false := by decide
-example : nodesInCore false [.include "x"] = false ∧ nodesInCore false [.block "b" []] = false
-    ∧ nodesInCore false [.break] = false ∧ nodesInCore false [.forLoop none "x" (.var "xs") [.break] []] = true
-    ∧ nodesInCore false [.forLoop none "x" (.var "xs") [.filterSection "upper" [] [.break]] []] = false := by
+example : nodesInCore [] false [.include "x"] = false ∧ nodesInCore [] false [.block "b" []] = false
+    ∧ nodesInCore [] false [.break] = false ∧ nodesInCore [] false [.forLoop none "x" (.var "xs") [.break] []] = true
+    ∧ nodesInCore [] false [.forLoop none "x" (.var "xs") [.filterSection "upper" [] [.break]] []] = false := by
   decide
 
 end Tera.Refine
